@@ -151,6 +151,8 @@ def scripted(plan):
 def gen_h1(rng):
     n = rng.choice([1, 2, 3])
     script, plan = [], []
+    closing = []
+    eof_mid_request = rng.random() < 0.25        # EOF / half-close at any point of the last request
     for k in range(n):
         body = rng.choice([b"", b"abc", b"x" * 3000])
         chunked = rng.random() < 0.3 and body
@@ -159,7 +161,8 @@ def gen_h1(rng):
         wire = b"%s /r%d?k=%d HTTP/1.%s\r\nHost: example.com\r\n%s%s\r\n" % (rng.choice([b"GET", b"POST", b"HEAD"]), k, k,
                                                                              rng.choice([b"1", b"1", b"0"]), hdr, extra)
         wire += (b"%x\r\n%s\r\n0\r\n\r\n" % (len(body), body)) if chunked else body
-        if rng.random() < 0.15:
+        closing.append(b"Connection: close" in wire or b" HTTP/1.0\r\n" in wire)
+        if rng.random() < 0.15 or (eof_mid_request and k == n - 1):
             wire = wire[:rng.randrange(1, len(wire))]          # cut short
         if rng.random() < 0.1:
             wire = b"GET /bad HTTP/1.1\r\nBad Header\r\n\r\n"
@@ -189,10 +192,11 @@ def gen_h1(rng):
             else:
                 steps.append(("send", {"type": "http.response.body", "body": b"end", "more_body": False}))
         plan.append(steps)
-    end = rng.choice(["none", "eof", "reset", "none"])
+    end = "eof" if eof_mid_request else rng.choice(["none", "eof", "reset", "none"])
     if end != "none":
         script.append(("sleep", rng.choice([0.0, 0.23, 4.1])))
         script.append((end,))
+    gen_h1.closing_not_last = any(closing[:-1])
     return script, plan, None
 
 
@@ -333,7 +337,9 @@ def normalise(res, alpn):
 def session_case(seed):
     rng = random.Random(seed)
     kind = rng.choice(["h1", "h1", "h1", "ws", "h2", "h2"])
+    gen_h1.closing_not_last = False
     script, plan, alpn = {"h1": gen_h1, "ws": gen_ws, "h2": gen_h2}[kind](rng)
+    closing_not_last = gen_h1.closing_not_last
     T = rng.choice([5.0, 5.0, 1.0])
     out = {}
     for backend, run in (("asyncio", W.run_asyncio), ("trio", W.run_trio)):
@@ -348,8 +354,9 @@ def session_case(seed):
         if out["asyncio"][key] != out["trio"][key]:
             a, t = out["asyncio"][key], out["trio"][key]
             sig = "workers-differ:" + key
-            if key == "wire" and isinstance(a, bytes) and isinstance(t, bytes) and (
-                    (t.startswith(a) and t[len(a):].startswith(b"HTTP/1.1 400 ")) or (a.startswith(t) and a[len(t):].startswith(b"HTTP/1.1 400 "))):
+            trio_only_400 = isinstance(a, bytes) and isinstance(t, bytes) and t.startswith(a) and t[len(a):].startswith(b"HTTP/1.1 400 ")
+            asyncio_only_400 = isinstance(a, bytes) and isinstance(t, bytes) and a.startswith(t) and a[len(t):].startswith(b"HTTP/1.1 400 ")
+            if key == "wire" and (trio_only_400 or (asyncio_only_400 and closing_not_last)):
                 # trio reports the client's EOF to the HTTP/1 parser even when it arrived while the reader was parked behind
                 # an unanswered request; asyncio's `while not reader.at_eof()` then leaves without reading it
                 sig = "F42:final-400-for-unprocessed-input-differs"
@@ -405,6 +412,21 @@ def run(ctx):
 
 
 def known_still_fails(k):
+    if k.get("signature", "").startswith("F42:"):
+        # a pipelined, incomplete second request and the client's EOF arrive while the first request is unanswered
+        script = [("send", b"POST /r0 HTTP/1.1\r\nHost: x\r\nContent-Length: 4\r\n\r\nxxxx"), ("send", b"GET /r1 HTTP/1.1\r\nHost: x\r\nCont"),
+                  ("sleep", 2.0), ("eof",)]
+        plan = [[("recv",), ("sleep", 6.0), ("send", {"type": "http.response.start", "status": 200, "headers": []}),
+                 ("send", {"type": "http.response.body", "body": b"end", "more_body": False})]]
+        wires = {}
+        for backend, run in (("asyncio", W.run_asyncio), ("trio", W.run_trio)):
+            cfg = R.make_config(())
+            cfg._log = R.RecLog([])
+            cfg.keep_alive_timeout = 5.0
+            wires[backend] = normalise(run(scripted(plan), cfg, script, tail=60.0), None)["wire"]
+        if wires["asyncio"] != wires["trio"]:
+            return f"asyncio wrote {len(wires['asyncio'])} bytes, trio {len(wires['trio'])} (trio adds a 400)"
+        return None
     return None
 
 
